@@ -25,7 +25,9 @@ ASSUMPTIONS = [
     'for every probed path except the ancestors of the cart directory '
     '(necessarily directories); open() records the path',
     'path strings are drawn from the alphabet { . / r x a } (include) and '
-    '{ . / x a ? ; ~ } (require) up to the stated length',
+    '{ . / x a ? ; ~ } (require) up to the stated length; plus upper-case R '
+    '(include) and the non-UTF-8 bytes 0xff, 0xc3 (require) in parameter '
+    'sets of their own',
 ]
 OUTSIDE = ['Windows path semantics', 'path strings longer than the bound or '
            'over other alphabets', 'symbolic links']
@@ -83,7 +85,7 @@ def check_paths(x, rec, roots, what):
 
 def include(x, p):
     n = p['n']
-    body = p.get('prefix', '').encode() + sym_path(x, 'path', n, './rxa')
+    body = p.get('prefix', '').encode() + sym_path(x, 'path', n, p.get('alphabet', './rxa'))
     ext = x.choice('ext', [b'.lua', b'.p8', b'.p8.png'])
     tab = x.choice('tab', [b'', b':1'])
     line = b'#include ' + body + ext + tab + b'\n'
@@ -121,7 +123,7 @@ def include(x, p):
 
 def require(x, p):
     n = p['n']
-    s = sym_path(x, 'req', n, './xa?;~')
+    s = sym_path(x, 'req', n, p.get('alphabet', './xa?;~'))
     lua_path = p['lua_path']
     rec = []
     src = b'require("' + s + b'")\n'
@@ -135,6 +137,8 @@ def require(x, p):
         err = 'opened'
     except build.LuaBuildError as e:
         err = 'LuaBuildError'
+    except UnicodeDecodeError:
+        err = 'UnicodeDecodeError'      # a refusal, too: nothing was opened
     except Exception as e:
         x.check('only LuaBuildError is raised for a bad require()', False,
                 info=repr(e))
@@ -162,12 +166,22 @@ HARNESSES = [
              dict(Q, n=3, prefix='../', cart='/w/r/a/c.p8', cwd='/w/r/a',
                   root='/w/r', carts=['/w/r']),
              dict(Q, n=4, cart='/w/r/c.p8', cwd='/w/r', root='/w/r',
-                  carts=['/w/r'])],
+                  carts=['/w/r']),
+             # a sibling directory whose name differs from the root's only by
+             # letter case
+             dict(Q, n=3, prefix='../', alphabet='./rRa'),
+             dict(Q, n=3, prefix='../', alphabet='./rRa', cart='/w/r/c.p8',
+                  cwd='/w/r', root='/w/r', carts=['/w/r'])],
             thorough=[dict(Q, n=n, _budget=3000) for n in (1, 2, 3, 4, 5, 6,
                                                           7)]),
     Harness('require', require,
             quick=[dict(Q, n=n, lua_path=lp) for n in (1, 2, 3)
-                   for lp in (None, 'lib/?.lua;?/init.lua', '/abs/l/?.lua')],
+                   for lp in (None, 'lib/?.lua;?/init.lua', '/abs/l/?.lua')] +
+            # bytes that are not UTF-8 between the characters of a forbidden
+            # sequence (0xff alone, 0xc3 as a lead byte without continuation)
+            [dict(Q, n=n, lua_path=None, alphabet='./a\xff\xc3')
+             for n in (3, 4)] +
+            [dict(Q, n=3, lua_path='/abs/l/?.lua', alphabet='./a\xff')],
             thorough=[dict(Q, n=n, lua_path=lp, _budget=3000)
                       for n in (1, 2, 3, 4, 5)
                       for lp in (None, 'lib/?.lua;?/init.lua',
